@@ -1,5 +1,6 @@
 import Lean.Data.Json
 import Gemato.Model.ManifestText
+import Gemato.Model.OpenPGP
 /-
   Line-protocol driver: one JSON request per input line, one JSON reply per
   output line. Strings travel as arrays of code points.
@@ -96,6 +97,40 @@ def opDecode (req : Json) : Except String Json := do
     | .error .invalidEscape => Json.str "invalid"
     | .error .outOfRange => Json.str "range")])
 
+def jFailure : PGP.Failure → String
+  | .verification => "OpenPGPVerificationFailure"
+  | .expiredKey => "OpenPGPExpiredKeyFailure"
+  | .revokedKey => "OpenPGPRevokedKeyFailure"
+  | .unknownSig => "OpenPGPUnknownSigFailure"
+  | .untrustedSig => "OpenPGPUntrustedSigFailure"
+  | .internal => "AssertionError"
+
+def opVerifyStatus (req : Json) : Except String Json := do
+  let exit ← (← req.getObjVal? "exit").getNat?
+  let lines ← getStrs (← req.getObjVal? "lines")
+  pure (Json.mkObj [("model", match PGP.verifyStatus exit lines with
+    | .ok d => Json.mkObj [("ok", Json.arr #[jStr d.fingerprint, jStr d.timestamp, jStr d.expire, jStr d.primary])]
+    | .error f => Json.mkObj [("err", Json.str (jFailure f))]),
+    ("kinds", Json.arr (lines.toArray.map fun l => Json.str (toString (repr (PGP.classify l)))))])
+
+def getEnv (j : Json) : Except String PGP.Env := do
+  let a ← j.getArr?
+  a.toList.mapM fun kv => do
+    let p ← kv.getArr?
+    pure ((← getStr p[0]!), (← getStr p[1]!))
+
+def opSpawnEnv (req : Json) : Except String Json := do
+  let caller ← getEnv (← req.getObjVal? "caller")
+  let home ← getStr (← req.getObjVal? "home")
+  let proxy ← match req.getObjVal? "proxy" with
+    | .ok Json.null => pure none
+    | .ok j => (getStr j).map some
+    | .error _ => pure none
+  let e := PGP.spawnEnv caller (PGP.isolatedOverride home proxy)
+  let g (k : Str) : Json := match PGP.envGet k e with | some v => jStr v | none => Json.null
+  pure (Json.mkObj [("GNUPGHOME", g PGP.sGNUPGHOME), ("TZ", g PGP.sTZ), ("http_proxy", g PGP.sHttpProxy),
+    ("n", jNat e.length)])
+
 def dispatch (req : Json) : Except String Json := do
   let op ← (← req.getObjVal? "op").getStr?
   match op with
@@ -103,6 +138,8 @@ def dispatch (req : Json) : Except String Json := do
   | "load_text" => opLoadText req
   | "dump" => opDump req
   | "decode" => opDecode req
+  | "verify_status" => opVerifyStatus req
+  | "spawn_env" => opSpawnEnv req
   | _ => .error s!"unknown op {op}"
 
 end Drv
